@@ -17,6 +17,7 @@ FINDERS = [
     (r'TextSelection::test(/|_set/)|TextSelectionSet::test|toggle_negate|toggle_all|with_limit|rightmost|leftmost', 'find_rel_pair'),
     (r'textselection_by_offset|beginaligned_cursor', 'find_offset_accept'),
     (r'LimitIter', 'find_limit_slice'),
+    (r'Handles', 'find_handles_setops'),
     (r'init_textseliters|next_textselection|FindTextSelectionsIter|TextResource::iter|vx_inserted_c', 'find_related_text'),
 ]
 
